@@ -989,6 +989,50 @@ def rule_r9(prog, res):
               'the funnel (C10-R11)', 'C10', c10.rule_r11, prog, Result)
 
 
+# ------------------------------------------------------------------ R10
+def rule_r10(prog, res):
+    res.rule('R10', 'every spelling of the per-method event manager '
+             'argument reaches the method: a branch that tests one spelling '
+             'uses that spelling; fault serialisation cannot raise on plain '
+             'fault codes (C09-R13)')
+    d = prog.module('spyne.decorator')
+    f = d.functions.get('_get_event_managers')
+    if f is None:
+        raise AnalysisError('_get_event_managers', 'not found')
+    n = 0
+    for t in walk_no_defs(f.node):
+        if not isinstance(t, ast.If):
+            continue
+        c = t.test
+        if not (isinstance(c, ast.Compare) and len(c.ops) == 1 and
+                isinstance(c.ops[0], ast.IsNot) and
+                isinstance(c.left, ast.Name) and
+                isinstance(c.comparators[0], ast.Constant) and
+                c.comparators[0].value is None):
+            continue
+        if not (len(t.body) == 1 and isinstance(t.body[0], ast.Assign)):
+            continue
+        n += 1
+        rhs = {x.id for x in ast.walk(t.body[0].value)
+               if isinstance(x, ast.Name)}
+        ok = c.left.id in rhs
+        where = '%s:%d' % (d.relpath, t.lineno)
+        res.ob('R10', where, '_get_event_managers: under "%s" it stores %s' %
+               (unparse(c), unparse(t.body[0])), 'ok' if ok else 'VIOLATED')
+        if not ok:
+            res.finding('R10', '_get_event_managers|tested-not-used|%s' %
+                        c.left.id, where, 'the branch tests %s but stores '
+                        '%s: the spelling that was actually passed is '
+                        'dropped (or a missing one is used), so the managers '
+                        'given with that keyword never see the method\'s '
+                        'events' % (c.left.id, unparse(t.body[0].value)))
+    res.floor('R10', 'spelling branches in _get_event_managers', n, 3)
+    from . import c09
+    from ..report import Result
+    res.share('R10', 'fault serialisation cannot raise on plain fault codes '
+              '(C09-R13)', 'C09', c09.rule_r13, prog, Result)
+
+
 def run(prog, res, tier):
     res.run_rule(rule_r1, prog, res, tier)
     res.run_rule(rule_r2, prog, res)
@@ -999,6 +1043,7 @@ def run(prog, res, tier):
     res.run_rule(rule_r7, prog, res, tier)
     res.run_rule(rule_r8, prog, res)
     res.run_rule(rule_r9, prog, res)
+    res.run_rule(rule_r10, prog, res)
 
 
 _A = 'spyne/application.py'
@@ -1011,6 +1056,12 @@ _D = 'spyne/descriptor.py'
 _O = 'spyne/util/oset.py'
 
 MUTANTS = [
+    Mutant('evmgrs-spelling-dropped', 'R10', 'fire', 'spyne/decorator.py',
+           in_func('_get_event_managers',
+                   "    elif _evmgrs is not None:\n        _event_managers = "
+                   "_evmgrs",
+                   "    elif _evmgr is not None:\n        _event_managers = "
+                   "_evmgrs"), 'tested-not-used'),
     Mutant('handler-sets-copied-as-sets', 'R8', 'fire', 'spyne/evmgr.py',
            in_func('EventManager.__init__',
                    "self.handlers = dict(handlers)",
